@@ -60,6 +60,22 @@ def run(R):
                    site(cm, construct))
     else:
         R.ok('C11.TBL.1', inst, site(cm, tti[0].ast))
+    # every occurrence of a temporary pattern is recorded so that a constraint on it applies to all of them
+    R.ob('C11.PRV.2', 'a constraint on a temporary pattern applies to every occurrence of that pattern in the rule')
+    inst = gp.qual + ' :: occurrences of a temporary pattern'
+    first = [n for n in gp.cfg.nodes if n.kind == 'stmt' and isinstance(n.ast, ast.Assign) and ast.unparse(n.ast.targets[0]) == 'temp_pats[pid]']
+    more = [n for (n, c) in calls_in_ctx(gp, attr='append') if ast.unparse(c.func.value) == 'temp_pats[pid]' and ast.unparse(c.args[0]) == 'c.id']
+    seen_t = [t for t in gp.cfg.nodes if t.kind == 'test' and ast.unparse(t.ast) in ('pid not in temp_pats', 'pid in temp_pats')]
+    use = [x for x in ast.walk(gp.f.node) if isinstance(x, ast.Call) and callee_attr(x) == 'join' and 'temp_pats[cons.pat.id]' in ast.unparse(x)]
+    okp = len(first) == 1 and len(more) == 1 and len(seen_t) == 1 and use
+    if okp:
+        newlab = ast.unparse(seen_t[0].ast) == 'pid not in temp_pats'
+        okp = first[0].id not in gp.cfg.reachable(removed_edges={(seen_t[0].id, newlab)}) and more[0].id not in gp.cfg.reachable(removed_edges={(seen_t[0].id, not newlab)})
+    if okp:
+        R.ok('C11.PRV.2', inst, site(gp, more[0].ast))
+    else:
+        R.fail('C11.PRV.2', inst, gp.qual, first[0].ast if first else 'def _gen_pattern_numbers', 'not every occurrence of a temporary pattern is remembered: a constraint on it '
+               'is attached to some occurrences only', site(gp, gp.f.node))
     # ------------------------------------------------------------------ PRV.1 _replicate_rules
     R.ob('C11.PRV.1', 'inlining a rule reference concatenates both name chains and both constraint sets, for every combination of alternatives')
     rr = ctx(R, CP + '.Compiler._replicate_rules')
